@@ -226,10 +226,10 @@ def c09_script(rng, name, nports, offsets, mode="router", dev="tun", probe_secon
     return Script(name, ops, {"suite": "node", "noshrink": any(o.startswith("nexpect") for o in ops)})
 
 
-def c10_script(rng, name, nports, mode, dev, length):
+def c10_script(rng, name, nports, mode, dev, length, **kw):
     """frames (destination claimed / learned / unknown / broadcast / own) injected at any node, conservation checked per step"""
     ports = list(range(1, nports + 1))
-    ops = mesh(rng, nports, mode=mode, dev=dev)
+    ops = mesh(rng, nports, mode=mode, dev=dev, **kw)
     # full mesh by a chain plus peer exchange
     ops += connect_chain(nports)
     t = 0
@@ -263,12 +263,12 @@ def c10_script(rng, name, nports, mode, dev, length):
     return Script(name, ops, {"suite": "node", "noshrink": any(o.startswith("nexpect") for o in ops)})
 
 
-def c14_graph_script(rng, name, n, edges, nat=None, seconds=12, mode="router", dev="tun", pt=300):
+def c14_graph_script(rng, name, n, edges, nat=None, seconds=12, mode="router", dev="tun", pt=300, algos=CHACHA):
     """connect instructions form a connected graph: full mesh expected after a few peer-exchange intervals"""
     ports = list(range(1, n + 1))
     ops = ["nkeys 3 %s" % rng.bytes(6).hex()]
     for p in ports:
-        ops.append(node_line(p, mode=mode, dev=dev, key=(p - 1) % 3, trust=(0, 1, 2), pt=pt, ka="1", nat=(nat or {}).get(p, 0)))
+        ops.append(node_line(p, mode=mode, dev=dev, key=(p - 1) % 3, trust=(0, 1, 2), pt=pt, ka="1", nat=(nat or {}).get(p, 0), algos=algos))
     for (a, b) in edges:
         ops.append("npeer %d p%d" % (a, b))
         ops += drain(6)
@@ -862,3 +862,48 @@ def forge_script(rng, name, cipher=3, after_rotation=False):
     ops += ["nframe 2 %s" % hx(ipv4_packet(ip4(2), ip4(1), b"ok"))] + drain(2)
     ops += ["nframe 1 %s" % hx(ipv4_packet(ip4(1), ip4(2), b"ok"))] + drain(2)
     return Script(name, ops, {"suite": "node"})
+
+
+def keepalive_only_script(rng, name, pt=40, total=110):
+    """a peer is heard only through keepalives (its node information is lost) for much longer than the peer timeout: "no node information OR
+    keepalive": it must stay connected with its routes; then it falls silent altogether and must be removed after the timeout"""
+    ops = mesh(rng, 2, pt=pt)
+    ops += connect_chain(2)
+    t = 0
+    silent_from = total - pt - 12
+    while t < total:
+        t += 1
+        ops += ["ntime %d" % t, "nhk 1", "nhk 2", "ndropfrom 2"]          # everything node 2 sends by itself is lost
+        if t < silent_from and t % 7 == 0:
+            ops += ["nseal 2 p1 02"]
+        ops += drain(4)
+        if t % 10 == 0:
+            ops += ["nframe 1 %s" % hx(ipv4_packet(ip4(1), ip4(2), b"x")), "ndrop 0"]
+    return Script(name, ops, {"suite": "node"})
+
+
+def translated_long_script(rng, name):
+    """as `translated_script`, but kept up beyond the periodic reset of the own-address list (300 s): an address adopted from a peer's list
+    stays adopted until the next reset, and after a reset it is adopted again from the next list"""
+    ops = mesh(rng, 2, ka="1")
+
+    def fwd(to, src):
+        return ["ndrop 0", "nreplay-last %d %s" % (to, src)]
+    ops += ["nconnect 1 p2"] + fwd(2, "p61") + fwd(1, "p2") + fwd(2, "p61") + fwd(1, "p2")
+    t = 0
+
+    def round_(t):
+        o = ["ntime %d" % t, "nhk 2"] + fwd(1, "p2") + ["nhk 1"] + fwd(2, "p61")
+        return o
+    for _ in range(3):
+        t += 1
+        ops += round_(t)
+    ops += ["nexpect own 1 p61"]
+    for t in (150, 290, 299, 300, 301):
+        ops += round_(t)
+    ops += ["nexpect own 1 p61", "nexpect notpending 1 p61"]
+    # seconds without a list from the peer: the adopted address must not vanish from one second to the next
+    for t in (302, 303, 304):
+        ops += ["ntime %d" % t, "nhk 1", "ndrop 0", "ndrop 0"]
+    ops += ["nexpect own 1 p61", "nexpect notpending 1 p61"]
+    return Script(name, ops, {"suite": "node", "noshrink": True})
